@@ -303,8 +303,10 @@ J_dur_op(e) ==
        [] o = "abs" -> R(lab, CmpDur(p, D3Abs(x.r3)))
        [] o \in {"add", "radd"} -> R(lab, CmpDur(p, D3Add(x.r3, e.pre[2].r3)) \o TypeDur(p, TRUE))
        [] o = "sub" -> R(lab, CmpDur(p, D3Sub(x.r3, e.pre[2].r3)) \o TypeDur(p, durLeft))
+       \* integer scaling is exact at every magnitude (the label marks products of 2^31 s = 24855 days and more, where
+       \* the former float product of total_seconds() - two roundings, 1.5 ulp - lost a microsecond: fixed in 05be55b)
        [] o \in {"mul_int", "rmul_int"} ->
-            R(lab \o <<B(x.years # 0 \/ x.months # 0), "float-exact", B(D3Abs(D3MulInt(x.r3, e.a.n))[1] < 99420)>>,
+            R(lab \o <<B(x.years # 0 \/ x.months # 0), "float-exact", B(D3Abs(D3MulInt(x.r3, e.a.n))[1] < 24855)>>,
               IF x.years # 0 \/ x.months # 0
               THEN (IF p.k = "exc" THEN << <<"unexpected-exception", p.names>> >> ELSE
                     V("years-months", <<p.years, p.months>> = <<x.years * e.a.n, x.months * e.a.n>>, <<x.years * e.a.n, x.months * e.a.n>>)
